@@ -88,13 +88,14 @@ def run(ctx):
                 meth = 'bip32.PrvKeyNode.serialize_private' if kind == 'prv' else 'bip32.PubKeyNode.serialize_public'
                 ver = T.int_(parts['ver'], BIG)
                 v, f = ev.call_function(meth, [node], {'version': ver})
-                is_master = T.and_(T.eq(T.int_(parts['dep'], BIG), T.const(0)), T.eq(T.int_(parts['idx'], BIG), T.const(0)))
-                nonmaster = T.assume(v, set(T._neg_facts(is_master)) | {T.not_(is_master)})
+                # BIP32-valid payloads: depth >= 1 (derived node), or the master payload (depth 0, child number 0, zero fingerprint)
+                d_int, i_int = T.int_(parts['dep'], BIG), T.int_(parts['idx'], BIG)
+                nonmaster = T.assume(v, {T.not_(T.eq(T.const(0), d_int))})
                 same_term(ob, T.hoist(nonmaster) if T.phi_conditions(nonmaster) else nonmaster, B,
-                          're-serialising a parsed non-master node reproduces the 78 payload bytes', fp_.where)
-                m = T.assume(v, {is_master, T.eq(T.int_(parts['dep'], BIG), T.const(0)), T.eq(T.int_(parts['idx'], BIG), T.const(0))})
+                          're-serialising a parsed derived node (depth >= 1) reproduces the 78 payload bytes', fp_.where)
+                m = T.assume(v, {T.eq(T.const(0), d_int), T.eq(T.const(0), i_int)})
                 expm = T.cat(parts['ver'], parts['dep'], T.const(b'\x00' * 4), parts['idx'], parts['ch'], parts['keydata'])
-                same_term(ob, m, expm, 're-serialising a parsed master node writes a zero fingerprint', fp_.where)
+                same_term(ob, T.hoist(m) if T.phi_conditions(m) else m, expm, 're-serialising a parsed master node writes a zero fingerprint', fp_.where)
                 if kind == 'prv':
                     v2, _ = ev.call_function('bip32.PubKeyNode.serialize_public', [node], {'version': ver})
                     ob.require(not T.occurs_outside(v2, lambda x: x == parts['k'], lambda x: T.is_op(x, 'PT')),
